@@ -127,7 +127,7 @@ def make_pair(seedval: int):
     return left, right, ml, mr
 
 
-PAIR_VERSION = 3  # part of the pristine cache key: bump whenever the pairs built from a seed change
+PAIR_VERSION = 4  # part of the pristine cache key: bump whenever the pairs built from a seed change
 
 
 def make_datasets(seedval: int, pipe_idx=None):
@@ -135,6 +135,13 @@ def make_datasets(seedval: int, pipe_idx=None):
     caller building datasets by hand may: the no-data pixels of the mask hold NaN (or inf) and `no_data_img` says so."""
     left, right, ml, mr = make_pair(seedval)
     l, r = drive.make_inputs(left, right, (-3, 2), ml, mr)
+    if seedval == 1021 and pipe_idx is not None and not any(n.split(".")[0] in ("validation", "multiscale") for n, _ in PIPELINES[pipe_idx]):
+        # per-pixel interval grids in which some pixels have no range of their own (NaN): the caller's grids stay as they are
+        H, W = left.shape
+        holes = (np.arange(H)[:, None] * 5 + np.arange(W)[None, :] * 3) % 11 == 0
+        gmin = np.where(holes, np.nan, -3.0 + (np.arange(W)[None, :] % 2)).astype(np.float32) * np.ones((H, 1), np.float32)
+        gmax = np.where(holes, np.nan, 2.0).astype(np.float32)
+        l, r = drive.make_inputs(left, right, (gmin, gmax), ml, mr)
     if seedval >= 1000 and seedval % 4 == 3:
         nd = np.nan if seedval % 8 == 3 else np.inf
         # sad / ssd derive their maximal cost from the raw samples and need them finite (observed precondition:
@@ -279,7 +286,8 @@ def replay_history(ctx: Ctx, p: dict) -> None:
                 nt = True
     ctx.judged += len(runs)
     ctx.case(p, nontrivial=nt, classes=[f"runs={min(len(runs), 5)}"] +
-             (["non-finite-no-data-convention"] if any(o[0] == "run" and o[3] >= 1000 for o in p["ops"]) else []))
+             (["non-finite-no-data-convention"] if any(o[0] == "run" and o[3] in (1003, 1015) for o in p["ops"]) else []) +
+             (["interval-grids-with-holes"] if any(o[0] == "run" and o[3] == 1021 for o in p["ops"]) else []))
 
 
 def history_runner(ctx: Ctx, tier, seed_val, shard, nshards, n):
@@ -295,7 +303,7 @@ def history_runner(ctx: Ctx, tier, seed_val, shard, nshards, n):
             self.ops = []
             self.sub = Ctx(prop=ctx.prop, check=ctx.check, tier=ctx.tier, known=ctx.known)
 
-        @initialize(p=st.integers(0, len(PIPELINES) - 1), q=st.integers(0, len(PIPELINES) - 1), pair=st.sampled_from([0, 5, 1003, 1015]))
+        @initialize(p=st.integers(0, len(PIPELINES) - 1), q=st.integers(0, len(PIPELINES) - 1), pair=st.sampled_from([0, 5, 1003, 1015, 1021]))
         def first(self, p, q, pair):
             self.ops += [["new", 0, p, 0], ["check", 0, 0, pair], ["new", 1, q, 0], ["check", 1, 0, pair], ["run", 0, 0, pair]]
             self.live = {0, 1}
@@ -307,20 +315,20 @@ def history_runner(ctx: Ctx, tier, seed_val, shard, nshards, n):
             self.live.add(slot)
             self.checked.discard(slot)
 
-        @rule(k=st.integers(0, 5), pair=st.sampled_from([0, 5, 1003, 1015]))
+        @rule(k=st.integers(0, 5), pair=st.sampled_from([0, 5, 1003, 1015, 1021]))
         def check(self, k, pair):
             slot = sorted(self.live)[k % len(self.live)]
             self.ops.append(["check", slot, 0, pair])
             self.checked.add(slot)
 
-        @rule(k=st.integers(0, 5), pair=st.sampled_from([0, 5, 1003, 1015]))
+        @rule(k=st.integers(0, 5), pair=st.sampled_from([0, 5, 1003, 1015, 1021]))
         def run(self, k, pair):
             if not self.checked:
                 return
             slot = sorted(self.checked)[k % len(self.checked)]
             self.ops.append(["run", slot, 0, pair])
 
-        @rule(k=st.integers(0, 5), pair=st.sampled_from([0, 5, 1003, 1015]))
+        @rule(k=st.integers(0, 5), pair=st.sampled_from([0, 5, 1003, 1015, 1021]))
         def run_again(self, k, pair):
             runs = [o for o in self.ops if o[0] == "run"]
             if runs:
@@ -490,7 +498,7 @@ def enumerate_orders(tier, shard, nshards):
     """every pipeline of the table once as the FIRST thing a process does, followed by all the others (rotated, so that
     every ordered pair 'i ran before j' occurs), each on its own machine object, then the first one again"""
     n = len(PIPELINES)
-    variants = [(i, 0, 1) for i in range(n)] + [(i, 1003, 1) for i in range(0, n, 2)]
+    variants = [(i, 0, 1) for i in range(n)] + [(i, 1003, 1) for i in range(0, n, 2)] + [(i, 1021, 1) for i in range(1, n, 2)]
     if tier != "quick":
         variants += [(i, 1015, -1) for i in range(n)] + [(i, 5, 1) for i in range(n)] + [(i, 0, -1) for i in range(n)] + [(i, 5, -1) for i in range(n)]
     for k, (i, pair, direction) in enumerate(variants):
